@@ -224,14 +224,15 @@ func runC04(c *eng.Ctx) {
 				}
 				n++
 				at := fs.At(in)
-				empt := fs.Find(at, "eq", func(d string, v ssa.Value) bool {
+				isLenOfFamilies := func(d string, v ssa.Value) bool {
 					lc, ok := v.(*ssa.Call)
 					if !ok || !strings.HasPrefix(d, "builtin:len(") || len(lc.Common().Args) != 1 {
 						return false
 					}
 					_, isMap := lc.Common().Args[0].Type().Underlying().(*types.Map)
 					return isMap && eng.DependsOnField(v, "kv/version.rollup.referenceFiles")
-				}, eng.DescIs("0"))
+				}
+				empt := append(fs.Find(at, "eq", isLenOfFamilies, eng.DescIs("0")), fs.Find(at, "le", isLenOfFamilies, eng.DescIs("0"))...)
 				c.Check(len(empt) > 0, fmt.Sprintf("outer-delete[%d]", n), in, f,
 					"delete(referenceFiles, store) is reached only when the store's family map is empty: the marks of the OTHER source families of that store must survive",
 					"facts at the delete: "+strings.Join(fs.Render(at), ", "))
